@@ -124,8 +124,7 @@ func (b *combineBuffer) addPoint(p edge.FieldsTagsTimeSetter) error {
 			return err
 		}
 		b.time = t
-		b.points = b.points[0:1]
-		b.points[0] = p
+		b.points = append(b.points[0:0], p)
 	}
 	return nil
 }
@@ -145,6 +144,15 @@ func (b *combineBuffer) combine() error {
 	}
 
 	l := len(b.expressions)
+
+	// Too many combinations is a property of the data, log it and skip these points.
+	if count := b.c.Count(int64(len(b.points)), int64(l)); count > b.c.max {
+		b.n.diag.Error(
+			"refusing to perform combination",
+			fmt.Errorf("total combinations %d exceeds max combinations %d", count, b.c.max),
+		)
+		return nil
+	}
 
 	// Compute matching result for all points
 	matches := make([]map[int]bool, l)
